@@ -123,6 +123,15 @@ theorem foldl_core {α} (f : St → α → St) (h : ∀ s x, core (f s x) = core
 
 @[simp] theorem core_stopAt (s : St) (n) : core (stopAt s n) = core s := rfl
 
+@[simp] theorem core_runFrom (l : List Site) (s : St) : core (runFrom s l) = core s := by
+  induction l generalizing s with
+  | nil => rfl
+  | cons x r ih =>
+    unfold runFrom; simp only []
+    split
+    · rfl
+    · rw [ih]; rfl
+
 @[simp] theorem core_stepOver (s : St) : core (stepOver s) = core s := by
   unfold stepOver; split
   · rfl
@@ -154,7 +163,7 @@ theorem runEnd_finish (s : St) : RunEnd s (finish s) := by
   · rename_i g n h
     split
     · exact .killed _ g n h (core_onKilled _ _)
-    · exact .same _ _ rfl (by intro c; simp)
+    · exact .same _ _ rfl (by intro c; split <;> simp)
 
 theorem runEnd_of_core {s t : St} {r : St × Out} (h : core t = core s) (hr : RunEnd t r) : RunEnd s r := by
   have hp : t.prog = s.prog := congrArg Core.prog h
@@ -170,15 +179,14 @@ theorem runEnd_traceLoop (fuel : Nat) (s : St) : RunEnd s (traceLoop fuel s) := 
     unfold traceLoop
     simp only []
     split
-    · refine runEnd_of_core ?_ (runEnd_finish _); rfl
+    · refine runEnd_of_core ?_ (runEnd_finish _); exact core_runFrom _ _
     · split
-      · exact .same _ _ rfl (by intro c; simp)
+      · exact .same _ _ (core_runFrom _ _) (by intro c; simp)
       · split
-        · exact .same _ _ rfl (by intro c; simp)
-        · refine runEnd_of_core ?_ (ih _); rw [core_stepOver]; rfl
+        · exact .same _ _ (core_runFrom _ _) (by intro c; simp)
+        · refine runEnd_of_core ?_ (ih _); rw [core_stepOver]; exact core_runFrom _ _
         · refine runEnd_of_core ?_ (ih _)
-          rw [core_stepOver, core_addAndEnable, core_refreshWps, core_enableAll]; rfl
-
+          rw [core_stepOver, core_addAndEnable, core_refreshWps, core_enableAll]; exact core_runFrom _ _
 
 /-! ## C11_drop_kills_launched -/
 /-- invariant of the process table -/
